@@ -194,6 +194,45 @@ fn operands(kind: u8) -> (Variable, Variable) {
         (Variable::Bool(kani::any()), Variable::Bool(kani::any()))
     }
 }
+/// Representative *concrete* right operands for the operators that can fail (or whose folding
+/// looks at the constant): the outcome kind (value / error / folded / not folded) must not be a
+/// symbolic merge, or CBMC walks the arms of the merged enum.  `None` = keep it symbolic.
+fn rhs_choices(op: BinOperator, kind: u8, which: u8) -> Option<Option<Variable>> {
+    // Some(None) = symbolic operand, Some(Some(v)) = this concrete operand, None = no such choice
+    let fallible = matches!(
+        op,
+        BinOperator::Divide | BinOperator::Modulo | BinOperator::Pow | BinOperator::LShift | BinOperator::RShift
+            | BinOperator::AssignDivide | BinOperator::AssignModulo | BinOperator::AssignPow
+            | BinOperator::AssignLShift | BinOperator::AssignRShift
+    );
+    if !fallible || kind != 0 {
+        return if which == 0 { Some(None) } else { None };
+    }
+    let c: i64 = match (op, which) {
+        (BinOperator::Divide | BinOperator::Modulo | BinOperator::AssignDivide | BinOperator::AssignModulo, 0) => 0,
+        (BinOperator::Divide | BinOperator::Modulo | BinOperator::AssignDivide | BinOperator::AssignModulo, 1) => -3,
+        (BinOperator::Pow | BinOperator::AssignPow, 0) => -1,
+        (BinOperator::Pow | BinOperator::AssignPow, 1) => 2,
+        (BinOperator::LShift | BinOperator::RShift | BinOperator::AssignLShift | BinOperator::AssignRShift, 0) => 63,
+        (BinOperator::LShift | BinOperator::RShift | BinOperator::AssignLShift | BinOperator::AssignRShift, 1) => 64,
+        (BinOperator::LShift | BinOperator::RShift | BinOperator::AssignLShift | BinOperator::AssignRShift, 2) => -1,
+        (BinOperator::LShift | BinOperator::RShift | BinOperator::AssignLShift | BinOperator::AssignRShift, 3) => 0,
+        _ => return None,
+    };
+    Some(Some(Variable::Int(c)))
+}
+fn operands_with(op: BinOperator, kind: u8, which: u8) -> Option<(Variable, Variable)> {
+    if !admits(op, kind) {
+        return None;
+    }
+    let (a, b) = operands(kind);
+    match rhs_choices(op, kind, which) {
+        None => None,
+        Some(None) => Some((a, b)),
+        Some(Some(c)) => Some((a, c)),
+    }
+}
+
 /// operand of unary `-` (int|float) / `!` (int|bool); kind concrete
 fn unary_operand(minus: bool, second: bool) -> Variable {
     if !second {
@@ -209,7 +248,7 @@ macro_rules! stubbed {
     ($(#[$m:meta])* pub fn $name:ident() $body:block) => {
         $(#[$m])*
         #[kani::proof]
-        #[kani::unwind(20)]
+        #[kani::unwind(3)]
         #[kani::stub(alloc::fmt::format, crate::verif_common::stub_format)]
         #[kani::stub(crate::instruction::bin_op::math::add::exec, s_add)]
         #[kani::stub(crate::instruction::bin_op::math::subtract::exec, s_sub)]
@@ -230,208 +269,198 @@ macro_rules! stubbed {
         #[kani::stub(crate::instruction::bin_op::math::lower_equal::exec, s_le)]
         #[kani::stub(crate::instruction::prefix_op::unary_minus::exec, s_neg)]
         #[kani::stub(crate::instruction::prefix_op::not::exec, s_not)]
-        pub fn $name() $body
+        pub fn $name() {
+            // declared shape of every tree in these harnesses (see lib/patch.py apply_gating)
+            crate::instruction::verif_gate::allow(&[crate::instruction::verif_gate::K_VARIABLE, crate::instruction::verif_gate::K_BINOPERATION, crate::instruction::verif_gate::K_UNARYOPERATION]);
+            $body
+        }
     };
 }
 
+/// `*cell`: a non-constant operand (the folding pass never folds an indirection); the instruction
+/// object holds a single pointer
 fn hidden(cell: &Arc<crate::variable::Mut>) -> Instruction {
-    // a non-constant operand: `*cell` (the folding pass never folds an indirection); the
-    // instruction object holds a single pointer, which keeps CBMC's heap reasoning exact
     UnaryOperation { instruction: Instruction::Variable(Variable::Mut(cell.clone())), op: UnaryOperator::Indirection }.into()
 }
 
-stubbed! {
+// NOTE no loops below: `#[kani::unwind]` bounds loops and recursion together and the recursion of
+// Instruction::exec must stay shallow, so operators and operand kinds are enumerated by
+// straight-line calls (`each_kind!`, one call per operator).
+macro_rules! each_kind {
+    ($f:ident, $op:expr) => {
+        $f($op, 0, 0);
+        $f($op, 0, 1);
+        $f($op, 0, 2);
+        $f($op, 0, 3);
+        $f($op, 1, 0);
+        $f($op, 2, 0);
+    };
+}
+macro_rules! each_op {
+    ($f:ident; $($op:ident),*) => { $( each_kind!($f, BinOperator::$op); )* };
+}
+macro_rules! each_const {
+    ($f:ident; $($op:ident),*) => { $(
+        $f(BinOperator::$op, 0, 0); $f(BinOperator::$op, 0, 1); $f(BinOperator::$op, 0, 2); $f(BinOperator::$op, 0, 3);
+        $f(BinOperator::$op, 1, 0); $f(BinOperator::$op, 1, 3);
+        $f(BinOperator::$op, 2, 0); $f(BinOperator::$op, 2, 1);
+    )* };
+}
+
 /// run-time path: BinOperation::exec
-pub fn t_dispatch() {
-    let mut k = 0;
-    while k < OPS.len() {
-        let op = OPS[k];
-        let mut kind: u8 = 0;
-        while kind < 3 {
-        if admits(op, kind) {
-        let (a, b) = operands(kind);
-        let mut interp = Interpreter::without_stdlib();
-        let ins = BinOperation { lhs: Instruction::Variable(a.clone()), rhs: Instruction::Variable(b.clone()), op };
-        let got = unstop(ins.exec(&mut interp));
-        let want = expected(op, a, b);
-        assert!(same_result(&got, &want));
+fn dispatch_one(op: BinOperator, kind: u8, which: u8) {
+    let Some((a, b)) = operands_with(op, kind, which) else { return };
+    let mut interp = Interpreter::without_stdlib();
+    let ins = BinOperation { lhs: Instruction::Variable(a.clone()), rhs: Instruction::Variable(b.clone()), op };
+    let got = unstop(ins.exec(&mut interp));
+    let want = expected(op, a, b);
+    assert!(same_result(&got, &want));
+}
+stubbed! { pub fn t_dispatch_arith() { each_op!(dispatch_one; Add, Subtract, Multiply, Divide, Modulo, Pow); kani::cover!(true); } }
+stubbed! { pub fn t_dispatch_bits() { each_op!(dispatch_one; LShift, RShift, BitwiseAnd, BitwiseOr, Xor); kani::cover!(true); } }
+stubbed! { pub fn t_dispatch_cmp() { each_op!(dispatch_one; Equal, NotEqual, Greater, GreaterOrEqual, Lower, LowerOrEqual); kani::cover!(true); } }
+
+/// folding path, both operands constant: BinOperation::recreate yields the constant the kernel
+/// yields, or the kernel's error as a parse-time error
+fn fold_const_one(op: BinOperator, kind: u8, which: u8) {
+    let Some((a, b)) = operands_with(op, kind, which) else { return };
+    let interp = Interpreter::without_stdlib();
+    let mut lv = LocalVariables::new(&interp);
+    let ins = BinOperation { lhs: Instruction::Variable(a.clone()), rhs: Instruction::Variable(b.clone()), op };
+    let want = expected(op, a, b);
+    match ins.recreate(&mut lv) {
+        Ok(Instruction::Variable(v)) => assert!(same_result(&Ok(v), &want)),
+        // left unfolded (e.g. **): the tree must then be the same operation on the same operands
+        Ok(Instruction::BinOperation(t)) => {
+            assert!(t.op == op);
+            let mut i2 = Interpreter::without_stdlib();
+            assert!(same_result(&unstop(t.exec(&mut i2)), &want));
         }
-        kind += 1;
-        }
-        k += 1;
+        Ok(_) => panic!("folding produced a different kind of instruction"),
+        Err(e) => assert!(same_result(&Err(e), &want)),
     }
-    kani::cover!(true);
+    std::mem::forget(lv);
 }
-}
+stubbed! { pub fn t_fold_const_arith() { each_op!(fold_const_one; Add, Subtract, Multiply, Divide, Modulo, Pow); kani::cover!(true); } }
+stubbed! { pub fn t_fold_const_bits() { each_op!(fold_const_one; LShift, RShift, BitwiseAnd, BitwiseOr, Xor); kani::cover!(true); } }
+stubbed! { pub fn t_fold_const_cmp() { each_op!(fold_const_one; Equal, NotEqual, Greater, GreaterOrEqual, Lower, LowerOrEqual); kani::cover!(true); } }
 
-macro_rules! t_fold_const {
-    ($name:ident, $lo:expr, $hi:expr) => {
-        stubbed! {
-        /// folding path, both operands constant: BinOperation::recreate yields the constant the kernel
-        /// yields, or the kernel's error as a parse-time error
-        pub fn $name() {
-            let mut k = $lo;
-            while k < $hi {
-                let op = OPS[k];
-                let mut kind: u8 = 0;
-        while kind < 3 {
-        if admits(op, kind) {
-        let (a, b) = operands(kind);
-                let interp = Interpreter::without_stdlib();
-                let mut lv = LocalVariables::new(&interp);
-                let ins = BinOperation { lhs: Instruction::Variable(a.clone()), rhs: Instruction::Variable(b.clone()), op };
-                let want = expected(op, a, b);
-                match ins.recreate(&mut lv) {
-                    Ok(Instruction::Variable(v)) => assert!(same_result(&Ok(v), &want)),
-                    // left unfolded (e.g. **): the tree must then be the same operation on the same operands
-                    Ok(Instruction::BinOperation(t)) => {
-                        assert!(t.op == op);
-                        let mut i2 = Interpreter::without_stdlib();
-                        assert!(same_result(&unstop(t.exec(&mut i2)), &want));
-                    }
-                    Ok(_) => panic!("folding produced a different kind of instruction"),
-                    Err(e) => assert!(same_result(&Err(e), &want)),
-                }
-                std::mem::forget(lv);
-                }
-                kind += 1;
-                }
-                k += 1;
-            }
-            kani::cover!(true);
-        }
-        }
+/// folding path with ONE constant operand (the other is `*cell`, never folded): the rewritten
+/// instruction, executed with the cell holding a symbolic value, gives what the kernel gives; a
+/// parse-time error is permitted only if the operation fails for that (every) value too
+/// the constant side is concrete (a representative list per operator and kind), the hidden side symbolic
+fn const_choice(op: BinOperator, kind: u8, which: u8, right: bool) -> Option<Variable> {
+    if kind == 1 {
+        return match which { 0 => Some(Variable::Float(0.0)), 1 => Some(Variable::Float(-0.0)), 2 => Some(Variable::Float(1.0)), 3 => Some(Variable::Float(f64::NAN)), _ => None };
+    }
+    if kind == 2 {
+        return match which { 0 => Some(Variable::Bool(false)), 1 => Some(Variable::Bool(true)), _ => None };
+    }
+    let shift = matches!(op, BinOperator::LShift | BinOperator::RShift);
+    let c: i64 = match which {
+        0 => 0,
+        1 => 1,
+        2 => -1,
+        3 => if shift && right { 63 } else { i64::MIN },
+        _ => return None,
     };
+    if which == 2 && shift && right { return Some(Variable::Int(64)); }
+    Some(Variable::Int(c))
 }
-t_fold_const!(t_fold_const_0, 0, 6);
-t_fold_const!(t_fold_const_1, 6, 12);
-t_fold_const!(t_fold_const_2, 12, 17);
-
-macro_rules! t_partial_fold {
-    ($name:ident, $const_on_right:expr, $lo:expr, $hi:expr) => {
-        stubbed! {
-        /// folding path with ONE constant operand (the other is `*cell`, never folded): the rewritten
-        /// instruction, executed with the cell holding a symbolic value, gives what the kernel gives;
-        /// a parse-time error is permitted only if the operation fails for that (every) value too
-        pub fn $name() {
-            let mut k = $lo;
-            while k < $hi {
-                let op = OPS[k];
-                let mut kind: u8 = 0;
-        while kind < 3 {
-        if admits(op, kind) {
-        let (a, b) = operands(kind);
-                let mut interp = Interpreter::without_stdlib();
-                let (lhs, rhs) = if $const_on_right {
-                    (hidden(&new_cell(Type::Any, a.clone())), Instruction::Variable(b.clone()))
-                } else {
-                    (Instruction::Variable(a.clone()), hidden(&new_cell(Type::Any, b.clone())))
-                };
-                let want = expected(op, a, b);
-                let ins = BinOperation { lhs, rhs, op };
-                let folded = {
-                    let mut lv = LocalVariables::new(&interp);
-                    let f = ins.recreate(&mut lv);
-                    std::mem::forget(lv);
-                    f
-                };
-                match folded {
-                    Ok(Instruction::BinOperation(t)) => {
-                        assert!(t.op == op);
-                        let got = unstop(t.exec(&mut interp));
-                        assert!(same_result(&got, &want));
-                    }
-                    Ok(_) => panic!("an operation with a non-constant operand was folded away"),
-                    Err(e) => assert!(same_result(&Err(e), &want)),
-                }
-                }
-                kind += 1;
-                }
-                k += 1;
-            }
-            kani::cover!(true);
-        }
-        }
+fn partial_fold(op: BinOperator, kind: u8, which: u8, const_on_right: bool) {
+    if !admits(op, kind) {
+        return;
+    }
+    let Some(cst) = const_choice(op, kind, which, const_on_right) else { return };
+    let (sym, _) = operands(kind);
+    let (a, b) = if const_on_right { (sym, cst) } else { (cst, sym) };
+    let mut interp = Interpreter::without_stdlib();
+    let (lhs, rhs) = if const_on_right {
+        (hidden(&new_cell(Type::Any, a.clone())), Instruction::Variable(b.clone()))
+    } else {
+        (Instruction::Variable(a.clone()), hidden(&new_cell(Type::Any, b.clone())))
     };
-}
-t_partial_fold!(t_fold_const_right_0, true, 0, 6);
-t_partial_fold!(t_fold_const_right_1, true, 6, 12);
-t_partial_fold!(t_fold_const_right_2, true, 12, 17);
-t_partial_fold!(t_fold_const_left_0, false, 0, 6);
-t_partial_fold!(t_fold_const_left_1, false, 6, 12);
-t_partial_fold!(t_fold_const_left_2, false, 12, 17);
-
-macro_rules! t_assign {
-    ($name:ident, $lo:expr, $hi:expr) => {
-        stubbed! {
-        /// compound assignment: yields and stores kernel(old content, value); a failing update leaves the
-        /// cell unchanged
-        pub fn $name() {
-            let mut k = $lo;
-            while k < $hi {
-                let op = ASSIGN_OPS[k];
-                let mut kind: u8 = 0;
-        while kind < 3 {
-        if admits(op, kind) {
-        let (a, b) = operands(kind);
-                let cell = new_cell(Type::Any, a.clone());
-                let mut interp = Interpreter::without_stdlib();
-                let ins = BinOperation {
-                    lhs: Instruction::Variable(Variable::Mut(cell.clone())),
-                    rhs: Instruction::Variable(b.clone()),
-                    op,
-                };
-                let got = unstop(ins.exec(&mut interp));
-                let want = expected(op, a.clone(), b);
-                assert!(same_result(&got, &want));
-                let content = cell.variable.read().unwrap().clone();
-                match &want {
-                    Ok(v) => assert!(same_val(&content, v)),
-                    Err(_) => assert!(same_val(&content, &a)),
-                }
-                }
-                kind += 1;
-                }
-                k += 1;
-            }
-            kani::cover!(true);
-        }
-        }
-    };
-}
-t_assign!(t_assign_0, 0, 4);
-t_assign!(t_assign_1, 4, 8);
-t_assign!(t_assign_2, 8, 12);
-
-stubbed! {
-/// unary - and ! : exec and fold go to their kernels
-pub fn t_unary() {
-    // which: 0 = -int, 1 = -float, 2 = !int, 3 = !bool
-    let mut which = 0;
-    while which < 4 {
-        let a = unary_operand(which < 2, which % 2 == 1);
-        let native = !stubs_active();
-        let (op, want) = if which < 2 {
-            (UnaryOperator::UnaryMinus, if native { unary_minus::exec(a.clone()) } else { s_neg(a.clone()) })
-        } else {
-            (UnaryOperator::Not, if native { not::exec(a.clone()) } else { s_not(a.clone()) })
-        };
-        let mut interp = Interpreter::without_stdlib();
-        let ins = UnaryOperation { instruction: Instruction::Variable(a.clone()), op };
-        let got = unstop(ins.exec(&mut interp));
-        assert!(same_result(&got, &Ok(want.clone())));
+    let want = expected(op, a, b);
+    let ins = BinOperation { lhs, rhs, op };
+    let folded = {
         let mut lv = LocalVariables::new(&interp);
-        match ins.recreate(&mut lv) {
-            Ok(Instruction::Variable(v)) => assert!(same_val(&v, &want)),
-            Ok(Instruction::UnaryOperation(t)) => {
-                let mut i2 = Interpreter::without_stdlib();
-                assert!(same_result(&unstop(t.exec(&mut i2)), &Ok(want)));
-            }
-            _ => panic!("folding a unary scalar operator failed"),
-        }
+        let f = ins.recreate(&mut lv);
         std::mem::forget(lv);
-        which += 1;
+        f
+    };
+    match folded {
+        Ok(Instruction::BinOperation(t)) => {
+            assert!(t.op == op);
+            let got = unstop(t.exec(&mut interp));
+            assert!(same_result(&got, &want));
+        }
+        Ok(_) => panic!("an operation with a non-constant operand was folded away"),
+        Err(e) => assert!(same_result(&Err(e), &want)),
     }
-    kani::cover!(true);
 }
+fn pfold_right(op: BinOperator, kind: u8, which: u8) {
+    partial_fold(op, kind, which, true)
 }
+fn pfold_left(op: BinOperator, kind: u8, which: u8) {
+    partial_fold(op, kind, which, false)
+}
+
+stubbed! { pub fn t_fold_right_a() { each_const!(pfold_right; Add, Subtract, Multiply); kani::cover!(true); } }
+stubbed! { pub fn t_fold_right_b() { each_const!(pfold_right; Divide, Modulo, Pow); kani::cover!(true); } }
+stubbed! { pub fn t_fold_right_c() { each_const!(pfold_right; LShift, RShift, BitwiseAnd); kani::cover!(true); } }
+stubbed! { pub fn t_fold_right_d() { each_const!(pfold_right; BitwiseOr, Xor, Equal, NotEqual); kani::cover!(true); } }
+stubbed! { pub fn t_fold_right_e() { each_const!(pfold_right; Greater, GreaterOrEqual, Lower, LowerOrEqual); kani::cover!(true); } }
+stubbed! { pub fn t_fold_left_a() { each_const!(pfold_left; Add, Subtract, Multiply); kani::cover!(true); } }
+stubbed! { pub fn t_fold_left_b() { each_const!(pfold_left; Divide, Modulo, Pow); kani::cover!(true); } }
+stubbed! { pub fn t_fold_left_c() { each_const!(pfold_left; LShift, RShift, BitwiseAnd); kani::cover!(true); } }
+stubbed! { pub fn t_fold_left_d() { each_const!(pfold_left; BitwiseOr, Xor, Equal, NotEqual); kani::cover!(true); } }
+stubbed! { pub fn t_fold_left_e() { each_const!(pfold_left; Greater, GreaterOrEqual, Lower, LowerOrEqual); kani::cover!(true); } }
+
+/// compound assignment: yields and stores kernel(old content, value); a failing update leaves the
+/// cell unchanged
+fn assign_one(op: BinOperator, kind: u8, which: u8) {
+    let Some((a, b)) = operands_with(op, kind, which) else { return };
+    let cell = new_cell(Type::Any, a.clone());
+    let mut interp = Interpreter::without_stdlib();
+    let ins = BinOperation {
+        lhs: Instruction::Variable(Variable::Mut(cell.clone())),
+        rhs: Instruction::Variable(b.clone()),
+        op,
+    };
+    let got = unstop(ins.exec(&mut interp));
+    let want = expected(op, a.clone(), b);
+    assert!(same_result(&got, &want));
+    let content = cell.variable.read().unwrap().clone();
+    match &want {
+        Ok(v) => assert!(same_val(&content, v)),
+        Err(_) => assert!(same_val(&content, &a)),
+    }
+}
+stubbed! { pub fn t_assign_arith() { each_op!(assign_one; Assign, AssignAdd, AssignSubtract, AssignMultiply, AssignDivide, AssignModulo, AssignPow); kani::cover!(true); } }
+stubbed! { pub fn t_assign_bits() { each_op!(assign_one; AssignLShift, AssignRShift, AssignBitwiseAnd, AssignBitwiseOr, AssignXor); kani::cover!(true); } }
+
+/// unary - and ! : exec and fold go to their kernels.  which: 0 = -int, 1 = -float, 2 = !int, 3 = !bool
+fn unary_one(which: u8) {
+    let a = unary_operand(which < 2, which % 2 == 1);
+    let native = !stubs_active();
+    let (op, want) = if which < 2 {
+        (UnaryOperator::UnaryMinus, if native { unary_minus::exec(a.clone()) } else { s_neg(a.clone()) })
+    } else {
+        (UnaryOperator::Not, if native { not::exec(a.clone()) } else { s_not(a.clone()) })
+    };
+    let mut interp = Interpreter::without_stdlib();
+    let ins = UnaryOperation { instruction: Instruction::Variable(a.clone()), op };
+    let got = unstop(ins.exec(&mut interp));
+    assert!(same_result(&got, &Ok(want.clone())));
+    let mut lv = LocalVariables::new(&interp);
+    match ins.recreate(&mut lv) {
+        Ok(Instruction::Variable(v)) => assert!(same_val(&v, &want)),
+        Ok(Instruction::UnaryOperation(t)) => {
+            let mut i2 = Interpreter::without_stdlib();
+            assert!(same_result(&unstop(t.exec(&mut i2)), &Ok(want)));
+        }
+        _ => panic!("folding a unary scalar operator failed"),
+    }
+    std::mem::forget(lv);
+}
+stubbed! { pub fn t_unary() { unary_one(0); unary_one(1); unary_one(2); unary_one(3); kani::cover!(true); } }
